@@ -149,6 +149,39 @@ def make_request_body(a, c, nfrag):
     return q
 
 
+MP_BODY = b'--b\r\nContent-Disposition: form-data; name="f"\r\n\r\nv\r\n--b--\r\nepilogue'
+
+
+def make_request_body_multipart(typed):
+    """the raw body of a request whose content is a well-formed multipart form (closing delimiter, CRLF, epilogue): the
+    first read() of the server returns v bytes only (every v), buffer sizes on both sides of every offset"""
+    n = len(MP_BODY)
+    lens = [1, 10, 30] + list(range(n - 20, n + 1))          # short reads ending around the closing delimiter and the epilogue
+    thresholds = [3, 16] + list(range(n - 10, n + 2))
+    cuts = [0, 2, 8, 11]
+
+    def q(v: int, t: int, c: int):
+        assume(0 <= v < len(lens) and 0 <= t < len(thresholds) and 0 <= c < len(cuts))
+        cl = n - cuts[c]                              # Content-Length: the whole form or less (cut in the epilogue / delimiter)
+        s = stubs.SymStream(n, [lens[v]], data=MP_BODY)
+        env = {"wsgi.input": s, "REQUEST_METHOD": "POST", "CONTENT_LENGTH": str(cl)}
+        if typed:
+            env["CONTENT_TYPE"] = "multipart/form-data; boundary=b"
+        rq = Request(env, config={"max_memfile_size": thresholds[t]})
+        try:
+            got = rq.body.read()
+        except RequestError as e:
+            return "unexpected request error %r" % (e,)
+        if got != MP_BODY[:cl]:
+            return "Content-Length %d of a %d byte multipart form, first read() %d bytes, buffer %d: Request.body.read() = %r" % (
+                cl, n, lens[v], thresholds[t], got)
+        if sum(s.given) > cl:
+            return "read beyond Content-Length"
+        cover("typed" if typed else "untyped")
+        return None
+    return q
+
+
 def queries(tier):
     out = []
     nf = 3 if tier == "quick" else 5
@@ -160,6 +193,12 @@ def queries(tier):
     out.append(Q("body_read/int/f%d" % nf2, make_body_read(nf2, 3),
                  "as iter_body through _body_read incl. spool switch; %d fragments, c <= 3*b" % nf2,
                  timeout=150 if tier == "quick" else 900, expect_cover=["spooled"], family="body_read"))
+    for typed in (True, False):
+        out.append(Q("request_body/multipart-shaped/%s" % ("typed" if typed else "untyped"), make_request_body_multipart(typed),
+                     "Request.body of a %d byte well-formed multipart form (with epilogue), %s; first read() of the server "
+                     "returns v bytes (v in 1, 10, 30, len-20..len), max_memfile_size in 3, 16, len-10..len+1, Content-Length "
+                     "len - (0, 2, 8, 11)" % (len(MP_BODY), "declared multipart/form-data; boundary=b" if typed else "no Content-Type"),
+                     timeout=600, expect_cover=["typed" if typed else "untyped"], family="request_body"))
     amax = 3 if tier == "quick" else 5
     for a in range(0, amax + 1):
         for c in [None, 0] + list(range(1, amax + 2)):
